@@ -125,7 +125,8 @@ def generate(seed: int, config: str, tier: str) -> Dict[str, Any]:
             for _ in range(frng.choice([1, 1, 2, 3])):
                 faults["cancels"].append([frng.randrange(1, 6 + 4 * n_jobs), frng.randrange(len(clients))])
     plan = {"docs": docs, "wraps": wraps, "ctx": ctxdoc, "queries": queries, "clients": clients, "faults": faults}
-    knobs = {"p_sched": rng.choice([0.2, 0.4, 0.6]), "p_get": rng.choice([0.2, 0.5, 0.8])}
+    knobs = {"p_sched": rng.choice([0.2, 0.4, 0.6]), "p_get": rng.choice([0.2, 0.5, 0.8]),
+             "filter_caching": rng.random() < 0.7, "well_typed": rng.random() < 0.8}
     return {"property": PROPERTY, "config": config, "seed": seed, "knobs": knobs, "plan": plan}
 
 
@@ -215,7 +216,10 @@ def execute(spec: Dict[str, Any], ctx: Ctx) -> None:
         ctx.count("fault.storeerr.configured")
     docs_w = [wrap(copy.deepcopy(d), store, w["mode"], w["depths"], 0, f"d{i}") for i, (d, w) in enumerate(zip(plan["docs"], plan["wraps"]))]
     fctx = plan["ctx"]
-    env = jsonpath.JSONPathEnvironment()
+    env = jsonpath.JSONPathEnvironment(
+        filter_caching=bool(knobs.get("filter_caching", True)), well_typed=bool(knobs.get("well_typed", True))
+    )
+    ctx.state("env", "caching" if knobs.get("filter_caching", True) else "nocache", "typed" if knobs.get("well_typed", True) else "untyped")
     texts = plan["queries"]
     compiled = [env.compile(t) for t in texts]
     kw: Dict[str, Any] = {"filter_context": fctx} if fctx is not None else {}
